@@ -437,3 +437,644 @@ def extract_worker(args):
         "outside_writes": sorted(set(ow1) | set(ow2)),
         "wall": rc.wall + rw.wall,
     }
+
+
+# ------------------------------------------------------------------------------------------ executing schedules
+XSS = {"JAVA_TOOL_OPTIONS": "-Xss512m"}  # RunW/RunSeq recurse once per file operation
+LAUNCHER = r"""
+import json, os, subprocess, sys
+spec = json.load(open(sys.argv[1]))
+ps = []
+for w in spec["workers"]:
+    env = dict(os.environ); env["PYTHONHASHSEED"] = str(w["seed"])
+    ps.append((w["w"], subprocess.Popen(w["argv"], env=env, stdout=subprocess.DEVNULL, stderr=open(w["err"], "wb"))))
+json.dump({"pids": {str(p.pid): w for w, p in ps}}, open(sys.argv[2] + ".pids", "w"))
+json.dump({"rcs": {str(w): p.wait() for w, p in ps}}, open(sys.argv[2], "w"))
+"""
+
+
+def path_list(p):
+    return p.split("/")
+
+
+def tree_diff(tree, ref, restrict=None):
+    """Compare a hashed tree with the reference (serial) tree, optionally restricted to `restrict` paths."""
+    keys_ref = set(ref) if restrict is None else set(k for k in ref if k in restrict)
+    missing = sorted(k for k in keys_ref if k not in tree)
+    extra = sorted(k for k in tree if k not in keys_ref)
+    differ = sorted(k for k in keys_ref if k in tree and tree[k] != ref[k])
+    return missing, extra, differ
+
+
+def run_schedule(spec):
+    """Execute one schedule with the real worker commands.
+    spec: dir, codes (list), members (list of global worker indices, position = local id 1..n), sched (list of
+    ["S"|"E", local id]), par, seeds (list per local id), kind, tid, strace (bool: all under ONE strace, sched must be
+    all-S-then-all-E).  Returns events (without tree event), tree."""
+    d = spec["dir"]
+    os.makedirs(d)
+    codes = spec["codes"]
+    members = spec["members"]
+    n = len(members)
+    ev = [{"tid": spec["tid"], "ev": "begin", "kind": spec["kind"], "n": n, "par": spec["par"]}]
+    rcs = {}
+    errs = {}
+    if spec.get("strace"):
+        js = {"workers": [{"w": i + 1, "argv": worker_argv(codes[members[i]]), "seed": spec["seeds"][i], "err": os.path.join(d, "err%d.txt" % (i + 1))} for i in range(n)]}
+        with open(os.path.join(d, "launch.json"), "w") as f:
+            json.dump(js, f)
+        log = os.path.join(d, "all.st")
+        argv = ["strace", "-f", "-y", "-s", "0", "-o", log, "-e", "trace=" + SYSCALLS, PY, "-P", "-c", LAUNCHER, os.path.join(d, "launch.json"), os.path.join(d, "rcs.json")]
+        r, _ = _run(argv, d, 0, timeout=3000)
+        if r.rc != 0 or not os.path.exists(os.path.join(d, "rcs.json")):
+            raise RuntimeError("launcher failed: rc %s %s" % (r.rc, r.err))
+        with open(os.path.join(d, "rcs.json")) as f:
+            rcs = {int(k): v for k, v in json.load(f)["rcs"].items()}
+        with open(os.path.join(d, "rcs.json.pids")) as f:
+            pids = {int(k): v for k, v in json.load(f)["pids"].items()}
+        for i in range(n):
+            ev.append({"tid": spec["tid"], "ev": "start", "w": i + 1})
+        prim, _ = project_strace(log, d)
+        unknown = 0
+        for e in prim:
+            if e["k"] == "exit":
+                continue
+            w = pids.get(e["pid"], 0)
+            if w == 0:
+                unknown += 1
+            ev.append({"tid": spec["tid"], "ev": "op", "w": w, "k": e["k"], "p": list(e["p"]), "q": list(e.get("q", ())), "x": e.get("x", 0), "r": e["r"]})
+        for i in range(n):
+            ev.append({"tid": spec["tid"], "ev": "end", "w": i + 1, "rc": rcs.get(i + 1, -99)})
+            try:
+                errs[i + 1] = open(os.path.join(d, "err%d.txt" % (i + 1)), errors="replace").read()[-800:]
+            except OSError:
+                errs[i + 1] = ""
+        spec["unknown_pid_ops"] = unknown
+    else:
+        procs = {}
+        for a, w in spec["sched"]:
+            if a == "S":
+                ef = open(os.path.join(d, "err%d.txt" % w), "wb")
+                procs[w] = (subprocess.Popen(worker_argv(codes[members[w - 1]]), cwd=d, env=child_env(spec["seeds"][w - 1]), stdout=subprocess.DEVNULL, stderr=ef), ef)
+                ev.append({"tid": spec["tid"], "ev": "start", "w": w})
+            else:
+                p, ef = procs[w]
+                rcs[w] = p.wait(timeout=3000)
+                ef.close()
+                errs[w] = open(os.path.join(d, "err%d.txt" % w), errors="replace").read()[-800:]
+                ev.append({"tid": spec["tid"], "ev": "end", "w": w, "rc": rcs[w]})
+    return {"events": ev, "tree": hash_tree(d), "rcs": rcs, "errs": errs, "spec": {k: v for k, v in spec.items() if k != "codes"}}
+
+
+def tree_event(tid, tree, ref, restrict=None, with_paths=True):
+    missing, extra, differ = tree_diff(tree, ref, restrict)
+    return {
+        "tid": tid,
+        "ev": "tree",
+        "missing": [path_list(p) for p in missing],
+        "extra": [path_list(p) for p in extra],
+        "differ": [path_list(p) for p in differ],
+        "nfiles": sum(1 for v in tree.values() if v != "DIR"),
+        "files": [path_list(p) for p, v in sorted(tree.items()) if v != "DIR"] if with_paths else [],
+        "dirs": [path_list(p) for p, v in sorted(tree.items()) if v == "DIR"] if with_paths else [],
+    }
+
+
+def serial_job(args):
+    d, codec, seed = args
+    os.makedirs(d)
+    r = run_serial(codec, d, seed)
+    return {"rc": r.rc, "err": r.err, "tree": hash_tree(d), "wall": r.wall}
+
+
+def ancestors_closure(paths):
+    out = set()
+    for p in paths:
+        parts = p.split("/")
+        for i in range(1, len(parts) + 1):
+            out.add("/".join(parts[:i]))
+    return out
+
+
+def sched_exhaustive(n, par):
+    res = tlc.run("TestCaseGenSched", "SPECIFICATION Spec\nCONSTANTS\n  N = %d\n  P = %d\nINVARIANT TypeOK\nINVARIANT WellFormed\nCHECK_DEADLOCK FALSE\n" % (n, par), dump=True)
+    hs = []
+    for st in tlaval.iter_dump(res.dump_path):
+        if len(st["finished"]) == n:
+            hs.append([[a, int(w)] for a, w in st["hist"]])
+    hs.sort()
+    return res, hs
+
+
+def iter_sim(path):
+    """States of a TLC -simulate trace file (tlaval.iter_dump chokes on the action comments between states)."""
+    with open(path) as f:
+        txt = "".join(l for l in f if not l.startswith(("\\*", "====", "----")))
+    q = path + ".clean"
+    with open(q, "w") as f:
+        f.write(txt)
+    return list(tlaval.iter_dump(q))
+
+
+def sched_simulate(n, par, num, seed):
+    res = tlc.run("TestCaseGenSched", "SPECIFICATION Spec\nCONSTANTS\n  N = %d\n  P = %d\nINVARIANT TypeOK\nCHECK_DEADLOCK FALSE\n" % (n, par), simulate=num, depth=2 * n + 1, seed=seed, workers=1)
+    hs = []
+    for p in sorted(glob.glob(os.path.join(res.sim_dir, "tr*"))):
+        sts = iter_sim(p)
+        if sts and len(sts[-1]["finished"]) == n:
+            hs.append([[a, int(w)] for a, w in sts[-1]["hist"]])
+    return res, hs
+
+
+# ------------------------------------------------------------------------------------------ TLC interleaving model
+def parse_error_trace(out):
+    """States of the counterexample TLC printed (list of dicts)."""
+    m0 = re.search(r"is violated by the initial state:\n", out)
+    if m0:
+        txt = "State 1: <Initial predicate>\n" + out[m0.end() :]
+    else:
+        i = out.find("State 1:")
+        if i < 0:
+            return []
+        txt = out[i:]
+    keep = []
+    for line in txt.splitlines():
+        if line.startswith(("State ", "/\\ ", " ", "\t")) or not line.strip():
+            keep.append(line)
+        else:
+            break
+    txt = "\n".join(keep) + "\n"
+    d = tlc.mkscratch("cex")
+    p = os.path.join(d, "cex.txt")
+    with open(p, "w") as f:
+        f.write(txt)
+    return list(tlaval.iter_dump(p))
+
+
+def _loc(st, w, g):
+    loc = st["loc"]
+    if isinstance(loc, dict):
+        return loc[w]
+    return loc[w - 1]  # TLC prints a function with domain 1..n as a tuple
+
+
+def real_call(l, op):
+    """The Python-level call that realises one step of the model: [kind, path] or None (no call)."""
+    if l["stk"]:
+        top = l["stk"][-1]
+        p, ph = list(top["p"]), str(top["ph"])
+    else:
+        p, ph = list(op["p"]), {"makedirs": "chk", "mkdir": "mk", "guardmk": "isdir", "creat": "open", "put": "open", "openr": "open", "stat": "isdir"}.get(op["k"])
+    if ph == "chk":
+        return ["stat", "/".join(p[:-1])] if len(p) > 1 else None
+    if ph in ("mk", "gmk"):
+        return ["mkdir", "/".join(p)]
+    if ph == "isdir":
+        return ["stat", "/".join(p)]
+    if ph == "open":
+        return ["open", "/".join(p)]
+    return None
+
+
+def describe_cex(states, progs, names, groups):
+    """(group, schedule) of a counterexample: which worker stepped in each transition and where it was."""
+    if not states:
+        return None
+    g = groups[int(states[0]["gi"]) - 1]
+    steps = []
+    failed = None
+    for a, b in zip(states, states[1:]):
+        for w in g:
+            la, lb = _loc(a, w, g), _loc(b, w, g)
+            if la != lb:
+                op = progs[w - 1][int(la["pc"]) - 1]
+                ph = lb["stk"][-1]["ph"] if lb["stk"] else ""
+                steps.append({"w": w, "pc": int(la["pc"]), "k": op["k"], "p": "/".join(op["p"]), "call": real_call(la, op), "then": ph or ("FAIL:" + lb["fail"] if lb["fail"] else "done")})
+                if lb["fail"] and not la["fail"]:
+                    failed = {"w": w, "name": names[w - 1], "error": lb["fail"], "op": op}
+    return {"group": list(g), "names": [names[w - 1] for w in g], "steps": steps, "failed": failed}
+
+
+def model_check(ctx, progs, names, groups, label, cfg="mc/TestCaseGen.cfg"):
+    data = write_data_module(progs, groups)
+    res = tlc.run("TestCaseGen", cfg, extra_files=[data], env=XSS, allow_invariant_violation=True, timeout=3400)
+    ctx.add_tlc(res, label, {"workers": len(progs), "groups": len(groups), "ops": sum(len(p) for p in progs), "cfg": cfg})
+    cex = None
+    if res.invariant_violated:
+        cex = describe_cex(parse_error_trace(res.out), progs, names, groups)
+        if cex is None:
+            raise RuntimeError("TLC reported %s but the counterexample could not be parsed\n%s" % (res.invariant_violated, res.out[-2000:]))
+        cex["invariant"] = res.invariant_violated
+    return res, cex
+
+
+def pick_groups(n, ntriples, rnd, prefer=None):
+    import itertools
+
+    groups = list(itertools.combinations(range(1, n + 1), 2))
+    tr = list(itertools.combinations(range(1, n + 1), 3))
+    rnd.shuffle(tr)
+    groups += sorted(tr[:ntriples])
+    return groups
+
+
+def model_selftest(progs, names):
+    """A corrupted extracted model (one tolerant makedirs of a shared directory replaced by check-then-act) must be
+    rejected by TLC with NoOpFails; a second one (two workers writing the same file) with FinalIsSerial."""
+    import copy
+
+    cand = [i for i, p in enumerate(progs) if p and p[0]["k"] == "makedirs" and names[i].startswith("dec:")]
+    if len(cand) < 2:
+        raise RuntimeError("model self-test: fewer than two decoder workers start with makedirs")
+    a, b = cand[0], cand[1]
+    pa, pb = copy.deepcopy(progs[a]), copy.deepcopy(progs[b])
+    def chain(op):  # makedirs(a/b/c, exist_ok) -> if not exists(a): mkdir(a); if not exists(a/b): ... (check-then-act)
+        return [{"k": "guardmk", "p": op["p"][: i + 1], "q": [], "x": 0} for i in range(len(op["p"]))]
+
+    pa[0:1] = chain(pa[0])
+    pb[0:1] = chain(pb[0])
+    d1 = write_data_module([pa, pb], [(1, 2)])
+    r1 = tlc.run("TestCaseGen", "mc/TestCaseGen.cfg", extra_files=[d1], env=XSS, allow_invariant_violation=True, coverage=False)
+    pa, pb = copy.deepcopy(progs[a]), copy.deepcopy(progs[b])
+    tgt = next(o for o in pa if o["k"] in ("put", "creat"))
+    k = next(i for i, o in enumerate(pb) if o["k"] in ("put", "creat"))
+    pb.insert(k + (3 if pb[k]["k"] == "creat" else 1), {"k": "put", "p": tgt["p"], "q": [], "x": 0})
+    d2 = write_data_module([pa, pb], [(1, 2)])
+    r2 = tlc.run("TestCaseGen", "mc/TestCaseGen.cfg", extra_files=[d2], env=XSS, allow_invariant_violation=True, coverage=False)
+    out = {"check_then_act_mkdir": r1.invariant_violated, "same_file_two_writers": r2.invariant_violated}
+    if r1.invariant_violated != "NoOpFails" or r2.invariant_violated not in ("FinalIsSerial", "ObsStable"):
+        raise RuntimeError("model binding self-test failed: %r" % (out,))
+    return out
+
+
+# ------------------------------------------------------------------------------------------ the check
+def _exc_type(err):
+    for line in reversed([x for x in (err or "").strip().splitlines() if x.strip()]):
+        m = re.match(r"^([A-Za-z_][\w.]*(?:Error|Exception|Exit|Interrupt))\b", line.strip())
+        if m:
+            return m.group(1).split(".")[-1]
+    return "unknown"
+
+
+def judge_runs(ctx, runs, ref, restrict_of, label):
+    """runs: list of results of run_schedule / synthetic runs (events, tree, spec); one TLC trace validation."""
+    records = []
+    by_tid = {}
+    for r in runs:
+        tid = r["spec"]["tid"]
+        by_tid[tid] = r
+        records += r["events"]
+        records.append(tree_event(tid, r["tree"], ref, restrict_of(r), with_paths=bool(r["spec"].get("strace"))))
+    bad, res = trace.validate("TestCaseGenTrace", records)
+    ctx.add_tlc(res, label)
+    alarms, dis = [], []
+    for b in bad:
+        (alarms if b["alarm"] else dis).append(b)
+    return records, alarms, dis, by_tid
+
+
+def case_of(r, codec, gen_seed):
+    s = r["spec"]
+    return {"codec": codec, "gen_seed": gen_seed, "kind": s["kind"], "members": s["members"], "sched": s.get("sched"), "par": s["par"], "seeds": s["seeds"], "strace": bool(s.get("strace")), "serial_seed": s.get("serial_seed"), "group": s.get("group"), "steps": s.get("steps")}
+
+
+def report_alarms(ctx, alarms, records, by_tid, codec, gen_seed, names):
+    for b in alarms:
+        r = by_tid[b["tid"]]
+        e = records[b["line"] - 1]
+        kind = r["spec"]["kind"]
+        if b["clause"] == "WorkerFailed":
+            w = e["w"]
+            gw = r["spec"]["members"][w - 1]
+            err = r.get("errs", {}).get(w, "")
+            sig = "C24|WorkerFailed|%s|%s" % (_exc_type(err), kind.split(":")[0])
+            what = "run %r: worker command %d (%s) exited with status %s: %s" % (kind, gw, names[gw], e["rc"], err.strip().splitlines()[-1:] or "")
+        else:
+            cat = "differ" if e["differ"] else ("missing" if e["missing"] else "extra")
+            first = "/".join((e["differ"] or e["missing"] or e["extra"])[0])
+            sig = "C24|TreeDiffers|%s|%s" % (cat, kind.split(":")[0])
+            what = "run %r: output tree is not the tree of the serial run: %d differing, %d missing, %d extra paths (first: %s)" % (kind, len(e["differ"]), len(e["missing"]), len(e["extra"]), first)
+        ctx.violation(sig, what, case_of(r, codec, gen_seed))
+
+
+def run(ctx):
+    codec = "minimal"
+    root = tlc.mkscratch("c24")
+    rnd = random.Random(ctx.seed)
+    cpu0 = os.times()
+    gen_seed = 4242
+    os.makedirs(os.path.join(root, "gen0"))
+    os.makedirs(os.path.join(root, "gen1"))
+    codes0 = gen_commands(codec, os.path.join(root, "gen0"), 0)
+    codes = gen_commands(codec, os.path.join(root, "gen1"), gen_seed)  # the commands themselves are produced under another hash seed
+    if len(codes) != len(codes0) or len(codes) < 3:
+        raise RuntimeError("--parallel emitted %d / %d commands" % (len(codes0), len(codes)))
+    names = [worker_name(c) for c in codes]
+    if names != [worker_name(c) for c in codes0]:
+        ctx.violation("C24|CommandListDiffers|hashseed", "the list of worker commands depends on PYTHONHASHSEED: %r vs %r" % (names, [worker_name(c) for c in codes0]), {"codec": codec, "kind": "commands"})
+    N = len(codes)
+    light = [i for i in range(N) if "real_pictures" not in names[i]]
+
+    # --- schedules chosen by TLC (command granularity)
+    rs, hs3 = sched_exhaustive(3, 2)
+    ctx.add_tlc(rs, "schedules, exhaustive", {"N": 3, "P": 2})
+    if len(hs3) < 6:
+        raise RuntimeError("TestCaseGenSched produced only %d schedules" % len(hs3))
+    NWq = len(light) if ctx.quick else N
+    rsim, hsN = sched_simulate(NWq, 8, ctx.pick(1, 3), ctx.seed)
+    if not hsN:
+        raise RuntimeError("no complete simulated schedule")
+
+    specs = []
+    tid = [100]
+
+    def add(kind, members, sched, par, seeds, cds=None, strace=False):
+        tid[0] += 1
+        specs.append({"dir": os.path.join(root, "run%d" % tid[0]), "codes": cds or codes, "members": members, "sched": sched, "par": par, "seeds": seeds, "kind": kind, "tid": tid[0], "strace": strace})
+
+    # the two real_pictures commands cost ~30 CPU-s each per execution (20x the others): the quick tier runs them
+    # only inside the serial reference runs; every worker-level run, the extraction and the model use the others
+    allw = list(light) if ctx.quick else list(range(N))
+    NW = len(allw)
+    rot = [1, gen_seed, 7, 0]
+    add("all-at-once:strace", allw, [["S", i + 1] for i in range(NW)] + [["E", i + 1] for i in range(NW)], 0, [rot[i % 4] for i in range(NW)], strace=True)
+    for k, h in enumerate(hsN):
+        add("tlc-simulated-schedule:P8", allw, h, 8, [(k + 1) * 11] * NW, cds=codes0 if k % 2 else codes)
+    if not ctx.quick:
+        add("reverse-sequential", allw, [x for i in reversed(range(NW)) for x in (["S", i + 1], ["E", i + 1])], 1, [5] * NW)
+        add("sequential", allw, [x for i in range(NW) for x in (["S", i + 1], ["E", i + 1])], 1, [6] * NW, cds=codes0)
+    ntrip = ctx.pick(1, 3)
+    for t in range(ntrip):
+        trip = sorted(rnd.sample(light, 3))
+        hs = list(hs3)
+        rnd.shuffle(hs)
+        for h in hs[: ctx.pick(10, len(hs))]:
+            add("tlc-schedule:triple", trip, h, 2, [0, 0, 0])
+
+    exroot = os.path.join(root, "ex")
+    os.makedirs(exroot)
+    serial_seeds = ctx.pick([0, gen_seed], [0, gen_seed, 1, 31337])
+    with concurrent.futures.ThreadPoolExecutor(ctx.pick(14, 16)) as pool:
+        f_serial = [pool.submit(serial_job, (os.path.join(root, "serial%d" % s), codec, s)) for s in serial_seeds]
+        f_ex = [pool.submit(extract_worker, (i, codes[i], exroot, 0)) for i in sorted(allw, key=lambda i: i in light)]
+        f_runs = [pool.submit(run_schedule, s) for s in specs]
+        serials = [f.result() for f in f_serial]
+        exl = sorted([f.result() for f in f_ex], key=lambda r: r["idx"])
+        runs = [f.result() for f in f_runs]
+    ex = {r["idx"]: r for r in exl}  # global worker index -> extraction
+
+    ref = serials[0]["tree"]
+    if serials[0]["rc"] != 0 or sum(1 for v in ref.values() if v != "DIR") < 10:
+        raise RuntimeError("the serial reference run failed or produced nothing (rc %s): %s" % (serials[0]["rc"], serials[0]["err"]))
+
+    # synthetic run records for the serial repetitions, the alone runs and the re-runs
+    for s, sr in zip(serial_seeds[1:], serials[1:]):
+        tid[0] += 1
+        runs.append({"events": [{"tid": tid[0], "ev": "begin", "kind": "serial:hashseed", "n": 1, "par": 1}, {"tid": tid[0], "ev": "start", "w": 1}, {"tid": tid[0], "ev": "end", "w": 1, "rc": sr["rc"]}], "tree": sr["tree"], "errs": {1: sr["err"]}, "spec": {"tid": tid[0], "kind": "serial:hashseed", "members": [0], "par": 1, "seeds": [s], "serial_seed": s}})
+    for kind, key_rc, key_tree, key_err in (("alone", "cold_rc", "cold_tree", "cold_err"), ("rerun", "warm_rc", "warm_tree", "warm_err")):
+        tid[0] += 1
+        evs = [{"tid": tid[0], "ev": "begin", "kind": kind, "n": NW, "par": 0}]
+        merged = {}
+        for j, r in enumerate(exl):
+            evs.append({"tid": tid[0], "ev": "start", "w": j + 1})
+            evs.append({"tid": tid[0], "ev": "end", "w": j + 1, "rc": r[key_rc]})
+            for p, h in r[key_tree].items():
+                if p in merged and merged[p] != h:
+                    merged[p] = "CONFLICT:%s|%s" % (merged[p], h)
+                else:
+                    merged[p] = h
+        runs.append({"events": evs, "tree": merged, "errs": {j + 1: r[key_err] for j, r in enumerate(exl)}, "spec": {"tid": tid[0], "kind": kind, "members": allw, "par": 0, "seeds": [0] * NW}})
+
+    def restrict_of(r):
+        m = r["spec"]["members"]
+        if r["spec"]["kind"].startswith("serial") or len(m) == N:
+            return None
+        paths = set()
+        for i in m:
+            paths |= set(ex[i]["cold_tree"])
+        return ancestors_closure(paths)
+
+    records, alarms, dis, by_tid = judge_runs(ctx, runs, ref, restrict_of, "trace validation of %d real runs (TestCaseGenTrace)" % len(runs))
+    report_alarms(ctx, alarms, records, by_tid, codec, gen_seed, names)
+
+    # --- the interleaving model on the extracted operation lists
+    fine = not ctx.quick
+    built = [build_prog(r["cold"], r["warm"], fine) for r in exl]
+    mnames = [names[r["idx"]] for r in exl]  # model worker j (1-based) = command exl[j-1]["idx"]
+    progs = [b[0] for b in built]
+    infos = [b[1] for b in built]
+    if any(len(p) < 2 for p in progs):
+        raise RuntimeError("a worker has an empty operation list: extraction is broken")
+    groups = pick_groups(NW, ctx.pick(40, 400), rnd)
+    res, cex = model_check(ctx, progs, mnames, groups, "all interleavings of all pairs + %d triples of the real workers (%s operations)" % (len(groups) - NW * (NW - 1) // 2, "fine" if fine else "coarse"))
+    model_failures = []
+    if cex:
+        model_failures.append(cex)
+        if cex["invariant"] == "ObsStable":
+            # a worker could observe the tree differently from its recording (unknown continuation): look for a
+            # definite failure on the paths where every observation is as recorded
+            res2, cex2 = model_check(ctx, progs, mnames, groups, "same groups, definite failures only (NoOpFails, FinalIsSerial)", cfg="mc/TestCaseGenHard.cfg")
+            if cex2:
+                model_failures.append(cex2)
+                cex = cex2
+        realise_counterexample(ctx, cex, codes, names, ex, [r["idx"] for r in exl], ref, codec, gen_seed, root)
+    full_equiv = None
+    if not ctx.quick:
+        sub = [g for g in groups if len(g) == 2][:: max(1, (NW * (NW - 1) // 2) // 40)]
+        rfull, cfull = model_check(ctx, progs, mnames, sub, "no partial-order reduction, %d sampled pairs" % len(sub), cfg="mc/TestCaseGenFull.cfg")
+        rred, cred = model_check(ctx, progs, mnames, sub, "same pairs with reduction", cfg="mc/TestCaseGen.cfg")
+        full_equiv = {"pairs": len(sub), "full_states": rfull.distinct, "reduced_states": rred.distinct, "same_verdict": (cfull is None) == (cred is None)}
+        if not full_equiv["same_verdict"]:
+            raise RuntimeError("partial-order reduction changes the verdict: %r" % (full_equiv,))
+
+    # --- the lemma on the abstract instance
+    lem = tlc.run("TestCaseGenLemma", "mc/TestCaseGenLemma.cfg", env=XSS, timeout=3000)
+    ctx.add_tlc(lem, "lemma: hypotheses => every interleaving ends in the serial tree (abstract instance)", {"NW": 2, "MaxLen": 2})
+    neg = tlc.run("TestCaseGenLemma", "mc/TestCaseGenLemmaNeg.cfg", env=XSS, allow_invariant_violation=True, coverage=False, timeout=3000)
+    if neg.invariant_violated != "Conclusion":
+        raise RuntimeError("the conclusion of the lemma holds without its hypotheses: the abstract instance is vacuous")
+
+    # --- binding self-tests
+    st_model = model_selftest(progs, mnames)
+    probe = [dict(e) for e in runs[0]["events"]]
+    pt = tree_event(runs[0]["spec"]["tid"], runs[0]["tree"], ref, restrict_of(runs[0]))
+    victim = next(p for p, v in sorted(ref.items()) if v != "DIR")
+    corrupted = dict(runs[0]["tree"])
+    corrupted[victim] = "0" * 64
+    pbad, _ = trace.validate("TestCaseGenTrace", probe + [tree_event(runs[0]["spec"]["tid"], corrupted, ref, restrict_of(runs[0]))])
+    if not any(b["alarm"] and b["clause"] == "TreeDiffers" for b in pbad):
+        raise RuntimeError("trace binding self-test failed: a corrupted file hash was accepted")
+    probe2 = [dict(e, rc=1) if e["ev"] == "end" and e["w"] == 2 else e for e in probe] + [pt]
+    pbad2, _ = trace.validate("TestCaseGenTrace", probe2)
+    if not any(b["alarm"] and b["clause"] == "WorkerFailed" for b in pbad2):
+        raise RuntimeError("trace binding self-test failed: a failed worker was accepted")
+
+    # --- vacuity and evidence
+    eexist = sum(1 for e in runs[0]["events"] if e["ev"] == "op" and e["k"] == "mkdir" and e["r"] == "EEXIST")
+    nops = sum(1 for e in runs[0]["events"] if e["ev"] == "op")
+    if nops < 100:
+        raise RuntimeError("the concurrent run under strace recorded only %d operations" % nops)
+    cpu1 = os.times()
+    nfiles = sum(1 for v in ref.values() if v != "DIR")
+    kinds = {}
+    for r in runs:
+        kinds[r["spec"]["kind"]] = kinds.get(r["spec"]["kind"], 0) + 1
+    ctx.coverage.update(
+        {
+            "traces_validated_against_impl": len(runs),
+            "evaluations": len(runs) + len(groups),
+            "distinct_nontrivial": len([r for r in runs if len(r["spec"]["members"]) > 1]) + len(groups),
+            "rule": "one evaluation = one real execution of worker commands under a schedule (tree hashed and compared with the serial run) or one group of real workers whose every interleaving TLC explored; non-trivial = more than one command involved",
+            "exhaustive": True,
+            "exhaustive_note": "every interleaving (system-call granularity) of every pair and of the sampled triples of the extracted real operation lists; every command-level schedule of 3 commands with at most 2 running; full-set schedules are sampled",
+            "configuration": codec,
+            "worker_commands": N,
+            "worker_commands_in_worker_level_runs": NW,
+            "excluded_from_worker_level_runs": [names[i] for i in range(N) if i not in allw],
+            "worker_names": names,
+            "reference_tree_files": nfiles,
+            "runs_by_kind": kinds,
+            "hash_seeds": {"serial": serial_seeds, "command_generation": [0, gen_seed], "workers": sorted(set(rot))},
+            "real_concurrent_run": {"operations_recorded": nops, "mkdir_EEXIST_races_observed": eexist, "ops_of_unattributed_pids": runs[0]["spec"].get("unknown_pid_ops", 0)},
+            "extraction": {"ops_per_worker": [len(p) for p in progs], "granularity": "fine (creat/write/close)" if fine else "coarse (creat+write+close = put)", "makedirs_calls": sum(i["makedirs"] for i in infos), "standalone_stats": sum(i["standalone_stat"] for i in infos), "check_then_act_mkdirs": sum(i["guardmk"] for i in infos), "unmatched_warm_calls": sum(i["unmatched_warm_calls"] for i in infos), "writes_outside_output_tree": sorted(set(p for r in exl for p in r["outside_writes"]))[:10]},
+            "groups": {"pairs": NW * (NW - 1) // 2, "triples": len(groups) - NW * (NW - 1) // 2},
+            "model_counterexamples": model_failures,
+            "reduction_check": full_equiv,
+            "spec_disagreements": len(dis),
+            "spec_disagreement_clauses": sorted(set(b["clause"] for b in dis)),
+            "binding_selftest": {"model": st_model, "trace": "a corrupted file hash is rejected with TreeDiffers; a non-zero exit status with WorkerFailed"},
+            "lemma_negative_control": "without the hypotheses TLC finds a counterexample to the conclusion (%d states)" % neg.distinct,
+            "cpu_seconds_children": round((cpu1.children_user + cpu1.children_system) - (cpu0.children_user + cpu0.children_system), 1),
+            "samples": [
+                {"run": runs[0]["spec"]["kind"], "workers": N, "first_ops": [e for e in runs[0]["events"] if e["ev"] == "op"][:4]},
+                {"run": specs[-1]["kind"], "members": [names[i] for i in specs[-1]["members"]], "schedule": specs[-1]["sched"]},
+                {"worker": mnames[6 % NW], "ops": progs[6 % NW][:6]},
+                {"group_sample": [[mnames[w - 1] for w in g] for g in groups[:2] + groups[-2:]]},
+            ],
+        }
+    )
+    ctx.assumptions += [
+        "one sample configuration (%s of tests/sample_codec_features.csv): %d worker commands" % (codec, N),
+        "operation lists are those observed by strace when each command runs alone (cold) and again over its own output (warm); ObsStable checks that nothing a worker reads of the tree can differ under interleaving",
+        "interleavings inside one write() system call and torn file contents are not modelled (a file's content is the ordered list of its writers' chunks)",
+        "os.makedirs is modelled as CPython 3.12 implements it (check parent, recurse, mkdir, isdir on EEXIST)",
+        "BLAS thread pools are limited to one thread per worker process (environment only)",
+    ]
+
+
+SHIM_SNIPPET = "import sys; sys.path.insert(0, %r); import harness.drivers.c24_shim as s; s.install(); " + WORKER_SNIPPET
+
+
+def run_forced(spec):
+    """Execute the workers of a group concurrently, their calls on the output tree forced (by the in-process shim,
+    harness/drivers/c24_shim.py) into the global order of a model counterexample."""
+    d = spec["dir"]
+    os.makedirs(d)
+    sd = os.path.join(d, "shim")
+    os.makedirs(sd)
+    members = spec["members"]
+    local = {w: i + 1 for i, w in enumerate(spec["group"])}
+    sched = [[local[st["w"]], st["call"][0], st["call"][1]] for st in spec["steps"] if st.get("call")]
+    with open(os.path.join(sd, "schedule.json"), "w") as f:
+        json.dump(sched, f)
+    tid = spec["tid"]
+    ev = [{"tid": tid, "ev": "begin", "kind": spec["kind"], "n": len(members), "par": 0}]
+    procs = {}
+    for i, gw in enumerate(members):
+        env = child_env(0)
+        env.update({"C24_SHIM_DIR": sd, "C24_SHIM_ID": str(i + 1), "C24_SHIM_OUT": OUT})
+        ef = open(os.path.join(d, "err%d.txt" % (i + 1)), "wb")
+        procs[i + 1] = (subprocess.Popen([PY, "-P", "-c", SHIM_SNIPPET % (common.VERIF, spec["codes"][gw])], cwd=d, env=env, stdout=subprocess.DEVNULL, stderr=ef), ef)
+        ev.append({"tid": tid, "ev": "start", "w": i + 1})
+    rcs = {}
+    t0 = time.time()
+    while len(rcs) < len(procs):
+        for w, (p, ef) in procs.items():
+            if w not in rcs and p.poll() is not None:
+                rcs[w] = p.returncode
+                ef.close()
+                for gi, e in enumerate(sched):  # a worker that has exited will not take its remaining turns
+                    if e[0] == w:
+                        open(os.path.join(sd, "done_%d" % gi), "a").close()
+        if time.time() - t0 > 1500:
+            for w, (p, ef) in procs.items():
+                if w not in rcs:
+                    p.kill()
+            raise RuntimeError("forced interleaving did not terminate")
+        time.sleep(0.02)
+    errs = {}
+    for w in procs:
+        ev.append({"tid": tid, "ev": "end", "w": w, "rc": rcs[w]})
+        errs[w] = open(os.path.join(d, "err%d.txt" % w), errors="replace").read()[-800:]
+    timeouts = len(glob.glob(os.path.join(sd, "timeout_*")))
+    taken = len([g for g in glob.glob(os.path.join(sd, "done_*"))])
+    return {"events": ev, "tree": hash_tree(d), "rcs": rcs, "errs": errs, "spec": {"tid": tid, "kind": spec["kind"], "members": members, "group": spec["group"], "steps": spec["steps"], "par": 0, "seeds": [0] * len(members), "forced_calls": len(sched), "turn_timeouts": timeouts, "turns_done": taken}}
+
+
+def realise_counterexample(ctx, cex, codes, names, ex, midx, ref, codec, gen_seed, root):
+    """A failing interleaving of the model is an alarm only when the REAL commands reproduce it: the group is run
+    with its calls on the output tree forced into the order of the counterexample (in-process shim), then a few
+    times freely concurrently; a real failure / tree difference is reported, otherwise the counterexample is only
+    logged in the evidence (model_counterexamples)."""
+    g = [midx[w - 1] for w in cex["group"]]  # ex: global command index -> extraction; midx: model id -> command index
+    paths = set()
+    for i in g:
+        paths |= set(ex[i]["cold_tree"])
+    restrict = ancestors_closure(paths)
+    runs = [run_forced({"dir": os.path.join(root, "forced%d" % cex["group"][0]), "codes": codes, "members": g, "group": cex["group"], "steps": cex["steps"], "kind": "model-counterexample:forced-interleaving", "tid": 900})]
+    for k in range(3):
+        sp = {"dir": os.path.join(root, "real%d_%d" % (cex["group"][0], k)), "codes": codes, "members": g, "sched": [["S", i + 1] for i in range(len(g))] + [["E", i + 1] for i in range(len(g))], "par": 0, "seeds": [0] * len(g), "kind": "model-counterexample:concurrent", "tid": 901 + k}
+        runs.append(run_schedule(sp))
+    records, alarms, dis, by_tid = judge_runs(ctx, runs, ref, lambda r: restrict, "trace validation of the realisation of the model counterexample")
+    report_alarms(ctx, alarms, records, by_tid, codec, gen_seed, names)
+    cex["realised"] = bool(alarms)
+    cex["forced_run"] = {k: runs[0]["spec"][k] for k in ("forced_calls", "turn_timeouts", "turns_done")}
+    cex["forced_rcs"] = runs[0]["rcs"]
+
+
+def replay(case):
+    class _C(object):
+        pass
+
+    if case.get("kind") == "commands":
+        return {"violations": ["re-run the check"]}
+    codec = case["codec"]
+    root = tlc.mkscratch("c24replay")
+    for sub in ("gen", "serial", "ex"):
+        os.makedirs(os.path.join(root, sub))
+    codes = gen_commands(codec, os.path.join(root, "gen"), case["gen_seed"])
+    sr = serial_job((os.path.join(root, "serial", "s"), codec, 0))
+    ref = sr["tree"]
+    members = case["members"]
+    if case["kind"].startswith("serial"):
+        s2 = serial_job((os.path.join(root, "serial", "t"), codec, case["serial_seed"]))
+        ev = [{"tid": 1, "ev": "begin", "kind": case["kind"], "n": 1, "par": 1}, {"tid": 1, "ev": "start", "w": 1}, {"tid": 1, "ev": "end", "w": 1, "rc": s2["rc"]}]
+        recs = ev + [tree_event(1, s2["tree"], ref)]
+    elif case["kind"] in ("alone", "rerun"):
+        with concurrent.futures.ThreadPoolExecutor(12) as pool:
+            exs = list(pool.map(extract_worker, [(i, codes[i], os.path.join(root, "ex"), 0) for i in members]))
+        key = ("cold_rc", "cold_tree") if case["kind"] == "alone" else ("warm_rc", "warm_tree")
+        ev = [{"tid": 1, "ev": "begin", "kind": case["kind"], "n": len(members), "par": 0}]
+        merged = {}
+        for r in exs:
+            ev += [{"tid": 1, "ev": "start", "w": r["idx"] + 1}, {"tid": 1, "ev": "end", "w": r["idx"] + 1, "rc": r[key[0]]}]
+            for p, h in r[key[1]].items():
+                merged[p] = h if merged.get(p, h) == h else "CONFLICT"
+        recs = ev + [tree_event(1, merged, ref)]
+    else:
+        restrict = None
+        if len(members) != len(codes):
+            with concurrent.futures.ThreadPoolExecutor(12) as pool:
+                exs = list(pool.map(extract_worker, [(i, codes[i], os.path.join(root, "ex"), 0) for i in members]))
+            paths = set()
+            for r in exs:
+                paths |= set(r["cold_tree"])
+            restrict = ancestors_closure(paths)
+        if case.get("steps"):
+            r = run_forced({"dir": os.path.join(root, "run"), "codes": codes, "members": members, "group": case["group"], "steps": case["steps"], "kind": case["kind"], "tid": 1})
+        else:
+            sp = {"dir": os.path.join(root, "run"), "codes": codes, "members": members, "sched": case["sched"], "par": case["par"], "seeds": case["seeds"], "kind": case["kind"], "tid": 1, "strace": case.get("strace")}
+            r = run_schedule(sp)
+        recs = r["events"] + [tree_event(1, r["tree"], ref, restrict)]
+    bad, _ = trace.validate("TestCaseGenTrace", recs)
+    return {"violations": [b for b in bad if b["alarm"]], "events": [e for e in recs if e["ev"] in ("end", "tree")][-6:]}
